@@ -326,21 +326,27 @@ def pushAtom (alg : AtomAlg A) (txt : List Char) (b : Bufs A) : M A (Bufs A) :=
     | some a => .ok (append b (.atom a))
     | none => .error (b, "atom")
 
-/-- the nested solver's results become the operator's `args` -/
-def solveArgs (solveArg : List Char → Except String (Tok A)) :
-    List (List Char) → Except String (List (Option A))
-  | [] => .ok []
-  | a :: as =>
-      match solveArg a with
-      | .error m => .error m
-      | .ok (.op _ _) => .error "unsupported:operator-valued-argument"
-      | .ok t =>
-        match solveArgs solveArg as with
+/-- `self.tokens.left, self.tokens.right = [], []` at the entry of `solve` (commit 8818136) -/
+def resetBufs (_st : Bufs A) : Bufs A := ⟨[], []⟩
+
+/-- The nested solver's results become the operator's `args`.  ONE nested instance
+    (`with ExpressionSolver(...) as es:`, buffers `st`) solves all arguments of the call in turn;
+    `solveArg st a` is that instance's `solve(a)`: the buffers it leaves and the outcome. -/
+def solveArgs (solveArg : Bufs A → List Char → Bufs A × Except String (Tok A)) :
+    Bufs A → List (List Char) → Except String (List (Option A))
+  | _, [] => .ok []
+  | st, a :: as =>
+      match solveArg st a with
+      | (_, .error m) => .error m
+      | (_, .ok (.op _ _)) => .error "unsupported:operator-valued-argument"
+      | (st', .ok t) =>
+        match solveArgs solveArg st' as with
         | .error m => .error m
         | .ok vs => .ok (tokAtom t :: vs)
 
 /-- The tokeniser loop of `solve` (and the atom from the remaining left text). -/
-def tokLoop (tbl : Table) (alg : AtomAlg A) (solveArg : List Char → Except String (Tok A)) :
+def tokLoop (tbl : Table) (alg : AtomAlg A)
+    (solveArg : Bufs A → List Char → Bufs A × Except String (Tok A)) :
     Nat → Ex → Bufs A → M A (Bufs A)
   | 0, _, b => .error (b, "fuel")
   | n + 1, e, b =>
@@ -359,7 +365,7 @@ def tokLoop (tbl : Table) (alg : AtomAlg A) (solveArg : List Char → Except Str
               | none => .error (b1, "unclosed")
               | some (e3, args) =>
                 if args.length != p.narg then .error (b1, "arity")
-                else match solveArgs solveArg args with
+                else match solveArgs solveArg ⟨[], []⟩ args with
                   | .error m => .error (b1, m)
                   | .ok vals => tokLoop tbl alg solveArg n e3 (append b1 (.op i vals))
 
@@ -369,7 +375,7 @@ def solveFromF (tbl : Table) (alg : AtomAlg A) (steps : List (List String × Oty
     Nat → Bufs A → List Char → Bufs A × Except String (Tok A)
   | 0, b0, _ => (b0, .error "fuel")
   | n + 1, b0, s =>
-      let nested := fun (a : List Char) => (solveFromF tbl alg steps n ⟨[], []⟩ a).2
+      let nested := fun (st : Bufs A) (a : List Char) => solveFromF tbl alg steps n (resetBufs st) a
       match tokLoop tbl alg nested (s.length + 1) ⟨[], s⟩ b0 with
       | .error (b, m) => (b, .error m)
       | .ok b1 =>
@@ -385,8 +391,6 @@ def solveFrom (tbl : Table) (alg : AtomAlg A) (steps : List (List String × Otyp
   solveFromF tbl alg steps (s.length + 1) b0 s
 
 /-- `ExpressionSolver.solve` on an instance whose buffers are `st`: resets them, then the body. -/
-def resetBufs (_st : Bufs A) : Bufs A := ⟨[], []⟩
-
 def solveI (tbl : Table) (alg : AtomAlg A) (steps : List (List String × Otype))
     (st : Bufs A) (s : List Char) : Bufs A × Except String (Tok A) :=
   solveFrom tbl alg steps (resetBufs st) s
